@@ -539,6 +539,22 @@ Section Sem.
         bind (ev_bool (TEq x y)) (fun b => if b then eq_pairs ps' else Ok (VBool false))
     end.
 
+  (** The common fields of two records as pairs of delivered values, in [split_ref]'s order. *)
+  Definition eq_center (fs1 fs2 : list field) : list (thunk * thunk) :=
+    if Nat.ltb (List.length fs1) (List.length fs2) then
+      flat_map (fun f2 => match lookup (fst f2) fs1 with
+                          | Some (x1, p1) => [(tctrs p1 x1, fld_thunk f2)]
+                          | None => []
+                          end) fs2
+    else
+      flat_map (fun f1 => match lookup (fst f1) fs2 with
+                          | Some (x2, p2) => [(fld_thunk f1, tctrs p2 x2)]
+                          | None => []
+                          end) fs1.
+
+  Definition same_keys (fs1 fs2 : list field) : bool :=
+    forallb (fun f => has_key (fst f) fs2) fs1 && forallb (fun f => has_key (fst f) fs1) fs2.
+
   (** [eq()] of operation.rs on two values in weak head normal form. *)
   Definition eq_whnf (v1 v2 : lval) : res lval :=
     match v1, v2 with
@@ -551,21 +567,16 @@ Section Sem.
           eq_pairs (rev (combine (arr_elems es1 p1) (arr_elems es2 p2)))
         else Ok (VBool false)
     | VRec fs1, VRec fs2 =>
-        match fs1, fs2 with
-        | [], [] => Ok (VBool true)
-        | _, _ =>
-            let '(lft, ctrf, rgt) := split_fields fs1 fs2 in
-            match lft, rgt with
-            | [], [] =>
-                let ps := map (fun '(k, ((x1, p1), (x2, p2))) => (tctrs p1 x1, tctrs p2 x2)) ctrf in
-                (* the first pair, then the others from the last to the second *)
-                match ps with
-                | [] => Ok (VBool true)
-                | p :: ps' => eq_pairs (p :: rev ps')
-                end
-            | _, _ => Ok (VBool false)
-            end
-        end
+        (* split_ref: fields of one side only make the records different; the common fields are
+           compared in the order of the iterated map (the first one unless it is smaller) *)
+        if negb (same_keys fs1 fs2) then Ok (VBool false)
+        else
+          let ps := eq_center fs1 fs2 in
+          (* the first pair, then the others from the last to the second *)
+          match ps with
+          | [] => Ok (VBool true)
+          | p :: ps' => eq_pairs (p :: rev ps')
+          end
     | VFun _, VFun _ => Err EIncomparable
     | _, _ => Ok (VBool false)
     end.
@@ -785,3 +796,8 @@ Definition program (k : container) (T : option ctr) (o : obs) : thunk :=
 
 Definition run (fuel : nat) (k : container) (T : option ctr) (o : obs) : res tree :=
   force fuel (program k T o).
+
+(** The container enters through the domain of a function contract:
+    [let f | T -> Dyn = fun x => o x in f k]; its annotation has the negative polarity. *)
+Definition run_dom (fuel : nat) (k : container) (T : ctr) (o : obs) : res tree :=
+  force fuel (TObs o (TCtr (false, T) (thunk_of_container k))).
